@@ -974,6 +974,49 @@ func initCase(t []string) *result {
 	return res
 }
 
+// OUTALLOC <Model> nT nC: output arrays handed out by sim.InitialiseOutputs (what ow-sim gives each
+// model type of each generation, and keeps for the asynchronous writer) must be distinct objects:
+// a later request (same model type, same size: the next generation) must not hand out, zero or
+// overwrite an array that is still in use.
+func outAlloc(t []string) *result {
+	res := &result{Cmd: "OUTALLOC", Ok: true, Model: t[0], Extra: map[string]interface{}{}}
+	nT, _ := strconv.Atoi(t[1])
+	nC, _ := strconv.Atoi(t[2])
+	factory := sim.Catalog[t[0]]
+	m1, m2 := factory(), factory()
+	first := sim.InitialiseOutputs(m1, nT, nC)
+	nOut := first.Len(1)
+	res.Extra["elements"] = nC * nOut * nT
+	for i := 0; i < nC; i++ {
+		for k := 0; k < nOut; k++ {
+			for tt := 0; tt < nT; tt += 97 {
+				first.Set3(i, k, tt, canary(i+k+tt))
+			}
+		}
+	}
+	for round := 0; round < 2; round++ {
+		mm := m1
+		if round == 1 {
+			mm = m2
+		}
+		next := sim.InitialiseOutputs(mm, nT, nC)
+		next.Set3(0, 0, 0, 12345.5)
+		for i := 0; i < nC && res.Ok; i++ {
+			for k := 0; k < nOut && res.Ok; k++ {
+				for tt := 0; tt < nT; tt += 97 {
+					if math.Float64bits(first.Get3(i, k, tt)) != math.Float64bits(canary(i+k+tt)) {
+						res.Ok = false
+						res.Fails = append(res.Fails, fmt.Sprintf("an output array still in use (e.g. handed to the writer) was zeroed / overwritten by a later sim.InitialiseOutputs of the same model type and size: element (%d,%d,%d) is %v (request %d, %d elements)",
+							i, k, tt, first.Get3(i, k, tt), round+2, nC*nOut*nT))
+						break
+					}
+				}
+			}
+		}
+	}
+	return res
+}
+
 func descDump() *result {
 	res := &result{Cmd: "DESC", Ok: true, Extra: map[string]interface{}{}}
 	names := []string{}
@@ -1014,16 +1057,16 @@ func main() {
 	if len(os.Args) >= 3 && os.Args[1] == "-capture" {
 		files, _ := filepath.Glob(filepath.Join(os.Args[2], "*", "generated_*.go"))
 		sort.Strings(files)
-		var reps []*captureReport
+		var reps []*structReport
 		for _, f := range files {
-			r, err := analyseRun(f)
+			r, err := analyseStructure(f, "Run", true)
 			if err != nil {
 				fatal(err)
 			}
 			reps = append(reps, r)
 		}
 		// the goroutine-per-model closure of ow-sim's runGeneration
-		if r, err := analyseFunc(filepath.Join(os.Args[2], "..", "cmd", "ow-sim", "running.go"), "runGeneration", false); err == nil {
+		if r, err := analyseStructure(filepath.Join(os.Args[2], "..", "cmd", "ow-sim", "running.go"), "runGeneration", false); err == nil {
 			reps = append(reps, r)
 		}
 		b, _ := json.Marshal(reps)
@@ -1051,6 +1094,8 @@ func main() {
 			r = initCase(f[1:])
 		case "DESC":
 			r = descDump()
+		case "OUTALLOC":
+			r = outAlloc(f[1:])
 		default:
 			r = &result{Cmd: f[0], Fails: []string{"unknown command"}}
 		}
